@@ -314,3 +314,79 @@ Proof.
   assert (K2 : Qle_bool 0 w2 = true) by (apply Qle_bool_iff; lra).
   rewrite K0, K1, K2. cbn [andb]. rewrite W1, W2. ring.
 Qed.
+
+(* ---------------- sample_path as a whole ---------------- *)
+Lemma subseq_Forall {A} (P : A -> Prop) l1 l2 : subseq l1 l2 -> Forall P l2 -> Forall P l1.
+Proof.
+  induction 1 as [|x l1 l2 _ IH|x l1 l2 _ IH]; intros H; [constructor| |]; inversion H; subst; [constructor; auto|auto].
+Qed.
+
+Lemma hd_error_map {A B} (f : A -> B) l : hd_error (map f l) = option_map f (hd_error l).
+Proof. destruct l; reflexivity. Qed.
+
+Lemma last_map' {A B} (f : A -> B) l d : last (map f l) (f d) = f (last l d).
+Proof. induction l as [|x l IH]; [reflexivity|]. cbn [map last]. destruct l; [reflexivity|exact IH]. Qed.
+Lemma last_indep' {A} (l : list A) d d' : l <> [] -> last l d = last l d'.
+Proof. induction l as [|x l IH]; [congruence|]. intros _. cbn [last]. destruct l; [reflexivity|]. apply IH. discriminate. Qed.
+Lemma last_nth' {A} (l : list A) d : last l d = nth (length l - 1) l d.
+Proof. induction l as [|x l IH]; [reflexivity|]. cbn [last length]. destruct l; [reflexivity|]. rewrite IH. cbn [length]. replace (S (S (length l)) - 1)%nat with (S (S (length l) - 1)) by lia. reflexivity. Qed.
+
+Lemma hd_error_hd {A} (l : list A) d : l <> [] -> hd_error l = Some (hd d l).
+Proof. destruct l; [congruence|reflexivity]. Qed.
+
+(* raster maps: the returned path starts at the pixel of the rounded start, ends at the pixel of the rounded end,
+   is an in-order selection of the pixel line, and every point carries the map's own height at its location *)
+Theorem raster_path_spec width height scale interp tol x1 y1 x2 y2 : 0 < tol ->
+  let r0 := py_round x1 in let c0 := py_round y1 in let r1 := py_round x2 in let c1 := py_round y2 in
+  let depth := raster_depth width height scale interp in
+  let path := raster_sample_path width height scale interp tol x1 y1 x2 y2 in
+  let first := (inject_Z r0, inject_Z c0, depth (inject_Z r0) (inject_Z c0)) in
+  hd_error path = Some first /\
+  pt_eqb (last path first) (inject_Z r1, inject_Z c1, depth (inject_Z r1) (inject_Z c1)) = true /\
+  subseq path (raster_line width height scale interp x1 y1 x2 y2) /\
+  Forall (fun p => zof p = depth (fst (fst p)) (snd (fst p))) path.
+Proof.
+  intros Ht. cbn zeta. unfold raster_sample_path, raster_line.
+  set (f := fun rc : Z * Z => (inject_Z (fst rc), inject_Z (snd rc), raster_depth width height scale interp (inject_Z (fst rc)) (inject_Z (snd rc)))).
+  set (line := draw_line (py_round x1) (py_round y1) (py_round x2) (py_round y2)).
+  destruct (draw_line_spec (py_round x1) (py_round y1) (py_round x2) (py_round y2)) as (Hlen & Hlast & Hhd & _). fold line in Hlen, Hlast, Hhd.
+  assert (Hne : line <> []) by (intros E; rewrite E in Hlen; discriminate).
+  assert (Hfirst : hd_error (map f line) = Some (f (py_round x1, py_round y1))).
+  { rewrite hd_error_map, (hd_error_hd line (0, 0)%Z Hne), Hhd. reflexivity. }
+  destruct (filter_spec tol (map f line) _ Ht Hfirst) as (A & B & C).
+  change (map (fun rc : Z * Z => let x := inject_Z (fst rc) in let y := inject_Z (snd rc) in
+             (x, y, raster_depth width height scale interp x y)) line) with (map f line).
+  repeat split.
+  - exact A.
+  - rewrite (last_map' f line (py_round x1, py_round y1)) in B.
+    rewrite (last_indep' line (py_round x1, py_round y1) (0, 0)%Z Hne), Hlast in B. exact B.
+  - exact C.
+  - eapply subseq_Forall; [exact C|]. apply Forall_forall. intros p Hin. apply in_map_iff in Hin as (rc & <- & _). reflexivity.
+Qed.
+
+(* sparse maps: the returned path starts exactly at (x1, y1), ends exactly at (x2, y2), is an in-order selection of the
+   n + 1 equally spaced samples of the segment, and every point carries the map's own height *)
+Theorem sparse_path_spec depth tol n x1 y1 x2 y2 : 0 < tol -> (1 <= n)%nat ->
+  let path := sparse_sample_path depth tol n x1 y1 x2 y2 in
+  (exists z0, hd_error path = Some (x1 + 0 * ((x2 - x1) / inject_Z (Z.of_nat n)), y1 + 0 * ((y2 - y1) / inject_Z (Z.of_nat n)), z0)) /\
+  (exists zl first, pt_eqb (last path first) (x2, y2, zl) = true) /\
+  subseq path (sparse_line depth n x1 y1 x2 y2) /\
+  Forall (fun p => zof p = depth (fst (fst p)) (snd (fst p))) path.
+Proof.
+  intros Ht Hn. cbn zeta. unfold sparse_sample_path.
+  destruct (sparse_line_spec depth n x1 y1 x2 y2 Hn) as (Hlen & Hall & H0 & Hl).
+  set (line := sparse_line depth n x1 y1 x2 y2) in *.
+  assert (Hne : line <> []) by (intros E; rewrite E in Hlen; discriminate).
+  destruct line as [|p0 rest] eqn:EL; [congruence|].
+  destruct (filter_spec tol (p0 :: rest) p0 Ht eq_refl) as (A & B & C).
+  repeat split.
+  - exists (snd p0). rewrite A. cbn [nth] in H0. destruct p0 as [[a b] c]. cbn in *. injection H0 as -> ->. reflexivity.
+  - exists (snd (last (p0 :: rest) p0)), p0.
+    assert (E : last (p0 :: rest) p0 = nth n (p0 :: rest) (0, 0, 0)).
+    { rewrite (last_indep' (p0 :: rest) p0 (0, 0, 0)) by discriminate. rewrite last_nth'. f_equal. rewrite Hlen. lia. }
+    rewrite E in *. destruct (nth n (p0 :: rest) (0, 0, 0)) as [[a b] c] eqn:EN. cbn in Hl. injection Hl as -> ->. exact B.
+  - exact C.
+  - eapply subseq_Forall; [exact C|]. apply Forall_forall. intros p Hin.
+    destruct (In_nth _ _ (0, 0, 0) Hin) as (i & Hi & <-). rewrite Hlen in Hi.
+    destruct (Hall i ltac:(lia)) as (_ & _ & _ & Hz). exact Hz.
+Qed.
